@@ -27,7 +27,7 @@ WireStage(st) ==
     [] st.t = "labelfmt" -> [t |-> "labelfmt", renames |-> [k \in DOMAIN st.renames |-> <<st.renames[k].dst, st.renames[k].src>>],
                              tmpls |-> [k \in DOMAIN st.tmpls |-> <<st.tmpls[k].dst, TmplText(st.tmpls[k].parts)>>]]
     [] st.t \in {"drop", "keep"} -> [t |-> st.t, labels |-> st.labels, matchers |-> WireMatchers(st.matchers)]
-    [] st.t = "distinct" -> [t |-> "distinct", labels |-> <<st.label>>]
+    [] st.t = "distinct" -> [t |-> "distinct", labels |-> IF "labels" \in DOMAIN st /\ st.labels # <<>> THEN st.labels ELSE <<st.label>>]
 WireStages(sts) == [k \in DOMAIN sts |-> WireStage(sts[k])]
 
 RECURSIVE WireExpr(_)
